@@ -14,10 +14,12 @@
      grounded_compact   : compact_af F n -> gr F (grounded (view_of_af F)) /\ NoDup ...
      view_of_fw_ok      : reachable store f -> view_ok (view_of_fw f) (af_of f)
      grounded_store     : reachable store f -> gr (af_of f) (grounded (view_of_fw f)) /\ NoDup ...
+     gr_se_correct, gr_dc_correct, gr_ds_correct : the GR queries of Model/Solvers.v answer
+                          [gr], [cred GR], [skep GR] and their certificates are grounded
    The fuel [S size] of [g_loop] is shown sufficient (the work list is duplicate free and made of
    arguments, all of them <= max id). *)
 From Coq Require Import List Arith Bool Lia Permutation ZifyBool.
-From Crusta Require Import Spec.AF Spec.SemFacts Spec.Theory Model.Store Model.Graph.
+From Crusta Require Import Spec.AF Spec.SemFacts Spec.Theory Model.Store Model.Graph Model.Solvers.
 From Crusta Require Import Proofs.StoreBase Proofs.EncSpec Proofs.StoreProofs.
 Import ListNotations.
 
@@ -436,3 +438,206 @@ Proof.
   apply (gr_seteq F (lfp F) (grounded g)); [apply seteq_sym; assumption|].
   apply gr_lfp. assumption.
 Qed.
+
+(* ------------------------------------------------------------------ *)
+(** * Instances *)
+
+(* the two adjacency functions of Spec/AF.v list the same multiset of attacks *)
+Lemma cocc_attacked_attackers F a b : cocc (attacked F a) b = cocc (attackers F b) a.
+Proof.
+  unfold attacked, attackers. induction (atts F) as [|[x y] l IH]; [reflexivity|].
+  cbn [filter fst snd].
+  destruct (Nat.eqb_spec x a) as [->|Hx]; destruct (Nat.eqb_spec y b) as [->|Hy];
+    cbn [map fst snd].
+  - rewrite !count_occ_cons_eq by reflexivity. f_equal. assumption.
+  - rewrite count_occ_cons_neq by assumption. assumption.
+  - rewrite count_occ_cons_neq by assumption. assumption.
+  - assumption.
+Qed.
+
+(* a view whose adjacency lists are those of [F] up to order *)
+Lemma view_ok_perm g F :
+  NoDup (g_ids g) ->
+  (forall a, In a (g_ids g) <-> In a (args F)) ->
+  (forall a, In a (args F) -> exists m, g_maxid g = Some m /\ a <= m) ->
+  (forall a, Permutation (g_from g a) (attacked F a)) ->
+  (forall a, Permutation (g_to g a) (attackers F a)) ->
+  view_ok g F.
+Proof.
+  intros Hnd Hids Hmax Hf Ht. split; [assumption|]. split; [assumption|]. split; [assumption|].
+  split.
+  - intros a b.
+    rewrite (proj1 (Permutation_count_occ Nat.eq_dec _ _) (Hf a) b).
+    rewrite (proj1 (Permutation_count_occ Nat.eq_dec _ _) (Ht b) a).
+    apply cocc_attacked_attackers.
+  - intros a b. rewrite <- in_attacked. split.
+    + apply Permutation_in. apply Hf.
+    + apply Permutation_in. apply Permutation_sym. apply Hf.
+Qed.
+
+(* ---------------- compact frameworks ---------------- *)
+Lemma compact_af_wf F n : compact_af F n -> wf F.
+Proof.
+  intros [Ha Hatt]. split.
+  - rewrite Ha. apply seq_NoDup.
+  - intros a b Hab. destruct (Hatt a b Hab) as [H1 H2]. rewrite Ha, !in_seq. lia.
+Qed.
+
+Theorem view_of_af_ok : forall F n, compact_af F n -> view_ok (view_of_af F) F.
+Proof.
+  intros F n [Ha Hatt]. apply view_ok_perm; unfold view_of_af;
+    cbn [g_ids g_maxid g_from g_to]; rewrite ?Ha, ?seq_length.
+  - apply seq_NoDup.
+  - intros a. reflexivity.
+  - intros a Hin. apply in_seq in Hin. destruct n as [|k]; [lia|].
+    exists k. split; [reflexivity|lia].
+  - intros a. apply Permutation_refl.
+  - intros a. apply Permutation_refl.
+Qed.
+
+Theorem grounded_compact : forall F n, compact_af F n ->
+  gr F (grounded (view_of_af F)) /\ NoDup (grounded (view_of_af F)).
+Proof.
+  intros F n HF. apply grounded_correct.
+  - apply (compact_af_wf F n HF).
+  - apply (view_of_af_ok F n HF).
+Qed.
+
+Theorem grounded_compact_lfp : forall F n, compact_af F n ->
+  seteq (grounded (view_of_af F)) (lfp F).
+Proof.
+  intros F n HF. apply grounded_lfp.
+  - apply (compact_af_wf F n HF).
+  - apply (view_of_af_ok F n HF).
+Qed.
+
+(* ---------------- the framework store ---------------- *)
+Lemma ssorted_lt_NoDup (l : list nat) : Sorted.StronglySorted lt l -> NoDup l.
+Proof.
+  induction 1 as [|a l Hs IH Hf]; constructor; [|assumption].
+  intros Hin. rewrite Forall_forall in Hf. specialize (Hf a Hin). lia.
+Qed.
+
+Section StoreInstance.
+Variable L : Type.
+Variable leqb : L -> L -> bool.
+Hypothesis leqb_spec : forall x y, leqb x y = true <-> x = y.
+
+(* the abstract framework a store denotes *)
+Definition af_of (f : fw L) : af := {| args := live_ids L f; atts := iter_attacks L f |}.
+
+Definition reachable (f : fw L) : Prop :=
+  exists ls os, f = run_ops L leqb (fw_new_with_labels L leqb ls) os.
+
+Lemma af_of_wf f : reachable f -> wf (af_of f).
+Proof.
+  intros Hr. destruct (spec_wellformed L leqb leqb_spec f Hr) as (_ & Hs & _ & Hatt & _).
+  cbn zeta in *. split.
+  - apply ssorted_lt_NoDup. exact Hs.
+  - intros a b Hab. exact (Hatt a b Hab).
+Qed.
+
+Theorem view_of_fw_ok : forall f, reachable f -> view_ok (view_of_fw f) (af_of f).
+Proof.
+  intros f Hr.
+  destruct (spec_wellformed L leqb leqb_spec f Hr) as (_ & Hs & Hlt & _).
+  destruct (observations L leqb leqb_spec f Hr) as (_ & _ & _ & Hfrom & Hto & _ & _ & Hmax).
+  cbn zeta in *. apply view_ok_perm; unfold view_of_fw; cbn [g_ids g_maxid g_from g_to].
+  - apply ssorted_lt_NoDup. exact Hs.
+  - intros a. reflexivity.
+  - intros a Ha. specialize (Hlt a Ha). rewrite Hmax.
+    destruct (Nat.eqb_spec (next_id (abs L f)) 0) as [E|E]; [lia|].
+    exists (next_id (abs L f) - 1). split; [reflexivity|lia].
+  - intros a. unfold attacked. apply Permutation_map. apply Hfrom.
+  - intros a. unfold attackers. apply Permutation_map. apply Hto.
+Qed.
+
+Theorem grounded_store : forall f, reachable f ->
+  gr (af_of f) (grounded (view_of_fw f)) /\ NoDup (grounded (view_of_fw f)).
+Proof.
+  intros f Hr. apply grounded_correct; [apply af_of_wf|apply view_of_fw_ok]; assumption.
+Qed.
+
+Theorem grounded_store_lfp : forall f, reachable f ->
+  seteq (grounded (view_of_fw f)) (lfp (af_of f)).
+Proof.
+  intros f Hr. apply grounded_lfp; [apply af_of_wf|apply view_of_fw_ok]; assumption.
+Qed.
+
+End StoreInstance.
+
+(* ------------------------------------------------------------------ *)
+(** * The GR queries of the solver model (Model/Solvers.v: gr_se, gr_dc, gr_ds) *)
+
+Lemma meets_spec al e : meets al e = true <-> exists a, In a al /\ In a e.
+Proof. apply (meetsb_spec al e). Qed.
+
+Theorem gr_se_correct : forall g F, wf F -> view_ok g F -> gr F (gr_se g).
+Proof. intros g F Hwf Hok. apply (grounded_correct g F Hwf Hok). Qed.
+
+(* credulous acceptance: the answer is right and a positive answer carries a grounded
+   certificate meeting the query *)
+Theorem gr_dc_correct : forall g F al, wf F -> view_ok g F ->
+  (fst (gr_dc g al) = true <-> cred GR F al) /\
+  (forall e, snd (gr_dc g al) = Some e -> gr F e /\ exists a, In a al /\ In a e) /\
+  (fst (gr_dc g al) = false -> snd (gr_dc g al) = None).
+Proof.
+  intros g F al Hwf Hok. destruct (grounded_correct g F Hwf Hok) as [Hgr _].
+  unfold gr_dc. cbn zeta. destruct (meets al (grounded g)) eqn:E; cbn [fst snd].
+  - apply meets_spec in E. split; [|split].
+    + split; [intros _|reflexivity]. exists (grounded g). split; assumption.
+    + intros e He. injection He as <-. split; assumption.
+    + discriminate.
+  - split; [|split].
+    + split; [discriminate|]. intros (S & HS & a & Ha & HaS).
+      assert (Hm : meets al (grounded g) = true).
+      { apply meets_spec. exists a. split; [assumption|].
+        apply (gr_unique2 F S (grounded g) Hwf HS Hgr). assumption. }
+      congruence.
+    + discriminate.
+    + reflexivity.
+Qed.
+
+(* skeptical acceptance: the answer is right and a negative answer carries a grounded
+   counter-example missing the query *)
+Theorem gr_ds_correct : forall g F al, wf F -> view_ok g F ->
+  (fst (gr_ds g al) = true <-> skep GR F al) /\
+  (forall e, snd (gr_ds g al) = Some e -> gr F e /\ ~ exists a, In a al /\ In a e) /\
+  (fst (gr_ds g al) = true -> snd (gr_ds g al) = None).
+Proof.
+  intros g F al Hwf Hok. destruct (grounded_correct g F Hwf Hok) as [Hgr _].
+  unfold gr_ds. cbn zeta. destruct (meets al (grounded g)) eqn:E; cbn [fst snd].
+  - apply meets_spec in E. destruct E as (a & Ha & Hae). split; [|split].
+    + split; [intros _|reflexivity]. intros S HS. exists a. split; [assumption|].
+      apply (gr_unique2 F (grounded g) S Hwf Hgr HS). assumption.
+    + discriminate.
+    + reflexivity.
+  - assert (Hn : ~ exists a, In a al /\ In a (grounded g)).
+    { intros H. apply meets_spec in H. congruence. }
+    split; [|split].
+    + split; [discriminate|]. intros Hs. exfalso. apply Hn. apply (Hs (grounded g) Hgr).
+    + intros e He. injection He as <-. split; assumption.
+    + discriminate.
+Qed.
+
+(* ---------------- the hypotheses are satisfiable ---------------- *)
+Example grounded_example :
+  let F := compact 4 [(0, 1); (0, 1); (1, 2); (3, 3); (2, 3)] in
+  compact_af F 4 /\ grounded (view_of_af F) = [0; 2].
+Proof.
+  cbn zeta. split; [|reflexivity]. split; [reflexivity|].
+  intros a b Hab. cbn [In] in Hab.
+  repeat (destruct Hab as [Hab|Hab]; [injection Hab as <- <-; lia|]). destruct Hab.
+Qed.
+
+Print Assumptions grounded_correct.
+Print Assumptions grounded_lfp.
+Print Assumptions view_of_af_ok.
+Print Assumptions grounded_compact.
+Print Assumptions grounded_compact_lfp.
+Print Assumptions view_of_fw_ok.
+Print Assumptions grounded_store.
+Print Assumptions grounded_store_lfp.
+Print Assumptions gr_se_correct.
+Print Assumptions gr_dc_correct.
+Print Assumptions gr_ds_correct.
